@@ -17,6 +17,7 @@ objects built from the same logical content)
 from .c12_geno import Geno
 from .c12_haps import Haps
 from .c12_pheno import Pheno
+from .c12_tv import TRANSLATION, TVIndex  # noqa: F401  (translation validation of index() / append(): c12_tv.py)
 from .c12_util import STRICT_APPEND_PRESENT_NAME, STRICT_INDEX_AFTER_DUPLICATES  # noqa: F401  (documented there)
 
 PROP = "C12"
@@ -66,7 +67,7 @@ ASSUMPTIONS = [
     "sample IDs are distinct in VCF / PGEN files (the readers refuse anything else); read(variants=...) is given a set",
 ]
 
-RELATIONS = [Geno(), Pheno(), Haps()]
+RELATIONS = [Geno(), Pheno(), Haps(), TVIndex()]
 
 LEVEL_TEXT = (
     "Coq refinement proof: concrete objects carrying explicit ID->position caches (snapshots of the ID list they were "
